@@ -22,7 +22,14 @@ import (
 //     reached the backend (before the backend answered, after the client has read the response head,
 //     or after it has read the first part of the body) and whose remaining duration is at least 1 s
 //     below timeouts.shutdown is received by the client complete: scripted status, scripted body, no
-//     read error. The statement makes no exception for any kind of request or response, so what the
+//     read error. The budget a request in flight has is the configured shutdown timeout ("shutdown -
+//     Maximum duration for graceful shutdown", README) - all of it, whatever else is configured: the
+//     remaining duration is drawn from "finishes at once" up to "timeout less 1 s" for timeouts of
+//     1-6 s, together with the time values of everything else in the file (active checks with probe
+//     timeouts below, at and above the shutdown timeout and probes answered or hanging, the other
+//     server.timeouts keys - none of which is set low enough to end the exchange itself -, and the
+//     time values of passive checks, circuit breaker and websocket pool).
+//     The statement makes no exception for any kind of request or response, so what the
 //     exchange looks like is drawn: media type of the response (documents, downloads, and the types
 //     that announce an event / record / frame stream), its framing (Content-Length, chunked,
 //     close-delimited), the number of writes its body arrives in, accompanying response fields,
@@ -47,6 +54,14 @@ const l3Name = "signal-at-request-point"
 // stepBudget bounds every loopback handshake of the scenario (normal: < 5 ms): exceeding it before
 // the signal is a harness problem, after the signal it is the violation "did not finish".
 const stepBudget = 5 * time.Second
+
+// judgeSlack: "allowed to finish" is asserted for a request whose response the scripted backend has
+// played completely at least this long before the shutdown timeout ends, counted from the instant the
+// harness sent the signal (the process starts its budget later than that, never earlier). The generator
+// plans every remaining duration 1 s or more below the timeout; on a machine that stalls the harness or
+// the backend for more than the difference the precondition of the clause ("remaining duration below the
+// shutdown timeout") did not hold in that run, which is measured here (lab.PlayedAt) and not assumed.
+const judgeSlack = 800 * time.Millisecond
 
 type l3Case struct {
 	ShutdownS int `json:"shutdown_s"`
@@ -90,6 +105,106 @@ type l3Case struct {
 	// delivered (0 = as soon as it serves). "Whatever the timing": a shutdown budget counts from the
 	// signal, not from anything earlier in the life of the process.
 	UptimeMs int `json:"uptime_ms,omitempty"`
+	// Late: drawn by genL3LateFinisher - the request in flight still needs more than half of (and at least
+	// 1 s less than) the shutdown timeout when the signal arrives.
+	Late bool `json:"late_finisher,omitempty"`
+	// Times: the other server.timeouts.* keys of the file (0 = key left out; documented defaults apply).
+	// None of them is allowed to end the request in flight: see normalize.
+	Times l3Times `json:"server_timeouts"`
+	// FeatureTimes: the time values of the optional features that are switched on (passive
+	// unhealthy_timeout, circuit breaker interval / timeout, websocket pool idle timeout):
+	// "" = the shipped sample file's, "short" = 1 s, "budget" = the shutdown timeout, "long" = 600 s.
+	FeatureTimes string `json:"feature_timeouts,omitempty"`
+}
+
+// l3Times: server.timeouts.* besides shutdown, in seconds; 0 = not in the file.
+type l3Times struct {
+	Read        int `json:"read,omitempty"`
+	Write       int `json:"write,omitempty"`
+	Idle        int `json:"idle,omitempty"`
+	Handler     int `json:"handler,omitempty"`
+	BackendDial int `json:"backend_dial,omitempty"`
+	BackendRead int `json:"backend_read,omitempty"`
+	BackendIdle int `json:"backend_idle,omitempty"`
+}
+
+func (t l3Times) any() bool { return t != l3Times{} }
+
+// usableMs: the longest remaining duration drawn for a request that has to finish inside a shutdown
+// timeout of shutdownS seconds: the timeout less a margin of 1 s (scheduling of the harness, of the
+// scripted backend and of the proxy on a loaded machine). The documented default of 30 s is not used up
+// in the quick tier (wall time); the thorough tier draws remaining durations of up to 24 s there.
+func usableMs(shutdownS int, omitted bool) int {
+	if omitted {
+		return lab.Scale(3000, 24000)
+	}
+	return (shutdownS - 1) * 1000
+}
+
+// needS: the seconds every timeout that bounds a whole exchange (write, handler, backend_read) must
+// leave the request in flight: its remaining duration at the signal, rounded up, plus 3 s (the time
+// before the signal is milliseconds: the signal is sent as soon as the request has reached its point).
+func (c l3Case) needS() int { return (c.ReleaseMs+999)/1000 + 3 }
+
+// normalize makes the other configured timeouts compatible with the drawn remaining duration of the
+// request in flight: a documented timeout that legitimately ends the exchange earlier (write: 15 s by
+// default, handler and backend_read: 30 s by default) must not be mistaken for the shutdown doing so.
+func (c l3Case) normalize() l3Case {
+	if c.Point == "idle" {
+		return c
+	}
+	need := c.needS()
+	for _, v := range []*int{&c.Times.Write, &c.Times.Handler, &c.Times.BackendRead} {
+		if *v != 0 && *v < need {
+			*v = need
+		}
+	}
+	if c.Times.Write == 0 && need > 12 { // default 15 s
+		c.Times.Write = need + 30
+	}
+	if c.Times.Handler == 0 && need > 27 { // default 30 s
+		c.Times.Handler = need + 30
+	}
+	if c.Times.BackendRead == 0 && need > 27 { // default 30 s
+		c.Times.BackendRead = need + 30
+	}
+	return c
+}
+
+// remainingPct: the remaining duration of the request in flight in percent of the shutdown timeout.
+func (c l3Case) remainingPct() int { return c.ReleaseMs / (10 * c.ShutdownS) }
+
+// needsSecondHalf: the request in flight finishes inside the shutdown timeout but only in its second half.
+func (c l3Case) needsSecondHalf() bool {
+	return c.Point != "idle" && c.Point != "half-sent-head" && !c.Over && c.ReleaseMs*2 > c.ShutdownS*1000
+}
+
+// drawActive draws the parameters of enabled active health checks (config rule: 0 < timeout < interval).
+// A hanging probe takes the backend out of rotation when it times out, so the request has to be sent
+// before that: where the harness sees the request arrive at the backend before it sends the signal the
+// probe timeout is 4 s or more (runL3 starts over when the machine was too slow for that) and the probe
+// may well time out while the request is being drained; where it cannot see that (half-sent-head) or waits
+// before sending (UptimeMs) it is 9 s or more. Answered probes get any interval of 2-30 s and a timeout
+// below, at and above the shutdown timeout.
+func drawActive(rt *rapid.T, c *l3Case, tag string) {
+	c.ProbeHangs = rapid.IntRange(0, 1).Draw(rt, tag+"probe_hangs") == 0
+	if c.ProbeHangs {
+		pairs := [][2]int{{10, 9}, {10, 9}, {10, 7}, {5, 4}, {30, 7}, {30, 29}}
+		if c.UptimeMs > 0 || c.Point == "half-sent-head" {
+			pairs = [][2]int{{10, 9}, {10, 9}, {30, 29}}
+		}
+		p := rapid.SampledFrom(pairs).Draw(rt, tag+"hanging_interval_timeout")
+		c.IntervalS, c.TimeoutS = p[0], p[1]
+		return
+	}
+	c.IntervalS = rapid.SampledFrom([]int{2, 2, 3, 5, 10, 30}).Draw(rt, tag+"interval")
+	cand := []int{1}
+	for _, v := range []int{2, 3, (c.ShutdownS + 1) / 2, c.ShutdownS - 1, c.ShutdownS, c.ShutdownS + 1, 7, c.IntervalS - 1} {
+		if v >= 1 && v < c.IntervalS {
+			cand = append(cand, v)
+		}
+	}
+	c.TimeoutS = rapid.SampledFrom(cand).Draw(rt, tag+"timeout")
 }
 
 // halfSent is ready at once for the half-sent-head point (nothing can have arrived at the backend
@@ -154,8 +269,11 @@ func (c l3Case) request() (method string, extra []lab.KV, body []byte) {
 }
 
 func genL3(rt *rapid.T) l3Case {
-	c := l3Case{ShutdownS: rapid.IntRange(2, 4).Draw(rt, "shutdown"), Signal: rapid.SampledFrom([]string{"TERM", "INT"}).Draw(rt, "signal"),
+	c := l3Case{ShutdownS: rapid.SampledFrom([]int{1, 2, 2, 3, 3, 4, 4, 5}).Draw(rt, "shutdown"), Signal: rapid.SampledFrom([]string{"TERM", "INT"}).Draw(rt, "signal"),
 		Point: rapid.SampledFrom([]string{"before-answer", "before-answer", "mid-body", "mid-body", "after-head", "idle", "half-sent-head", "half-sent-head"}).Draw(rt, "point")}
+	if c.Point == "half-sent-head" && c.ShutdownS < 2 {
+		c.ShutdownS = 2 // the rest of the head follows up to 0.5 s after the signal: the 1 s margin of usableMs
+	}
 	if c.Point != "idle" {
 		c.Status = rapid.SampledFrom([]int{200, 200, 201, 404}).Draw(rt, "status")
 		c.Framing = rapid.SampledFrom([]string{"cl", "chunked", "close"}).Draw(rt, "framing")
@@ -196,7 +314,7 @@ func genL3(rt *rapid.T) l3Case {
 			// being read)
 			c.ReleaseMs = rapid.SampledFrom([]int{0, 20, 200, 500}).Draw(rt, "rest_after_ms")
 		} else if !c.Over {
-			c.ReleaseMs = rapid.SampledFrom([]int{0, 20, 200, 600, (min(c.ShutdownS, 4) - 1) * 1000}).Draw(rt, "release_ms")
+			c.ReleaseMs = drawRelease(rt, c, "release_ms", 0)
 		}
 	}
 	if rapid.IntRange(0, 2).Draw(rt, "second") == 0 {
@@ -208,13 +326,7 @@ func genL3(rt *rapid.T) l3Case {
 	}
 	c.Active = c.Point == "idle" || rapid.IntRange(0, 1).Draw(rt, "active") == 0
 	if c.Active {
-		c.ProbeHangs = rapid.IntRange(0, 1).Draw(rt, "probe_hangs") == 0
-		if c.ProbeHangs {
-			c.IntervalS, c.TimeoutS = 10, 9
-		} else {
-			c.IntervalS = rapid.SampledFrom([]int{2, 2, 3}).Draw(rt, "interval")
-			c.TimeoutS = rapid.IntRange(1, c.IntervalS-1).Draw(rt, "timeout")
-		}
+		drawActive(rt, &c, "")
 	}
 	c.Metrics = rapid.IntRange(0, 3).Draw(rt, "metrics") == 0
 	c.Rate = rapid.Bool().Draw(rt, "rate_limit")
@@ -223,7 +335,37 @@ func genL3(rt *rapid.T) l3Case {
 	c.Pool = rapid.Bool().Draw(rt, "websocket_pool")
 	c.Admin = rapid.IntRange(0, 3).Draw(rt, "admin_api") == 0
 	c.Plugins = rapid.Bool().Draw(rt, "plugins")
-	return c
+	if rapid.Bool().Draw(rt, "server_timeouts_set") {
+		// values below a request's need are raised to it by normalize
+		c.Times = l3Times{
+			Read:        rapid.SampledFrom([]int{0, 5, 15, 60}).Draw(rt, "read"),
+			Write:       rapid.SampledFrom([]int{0, 1, 5, 15, 60}).Draw(rt, "write"),
+			Idle:        rapid.SampledFrom([]int{0, 1, 5, 60, 120}).Draw(rt, "idle"),
+			Handler:     rapid.SampledFrom([]int{0, 1, 5, 30, 60}).Draw(rt, "handler"),
+			BackendDial: rapid.SampledFrom([]int{0, 2, 10}).Draw(rt, "backend_dial"),
+			BackendRead: rapid.SampledFrom([]int{0, 1, 5, 30}).Draw(rt, "backend_read"),
+			BackendIdle: rapid.SampledFrom([]int{0, 1, 30, 90}).Draw(rt, "backend_idle"),
+		}
+	}
+	c.FeatureTimes = rapid.SampledFrom([]string{"", "", "short", "budget", "long"}).Draw(rt, "feature_timeouts")
+	return c.normalize()
+}
+
+// drawRelease draws how long after the signal the backend finishes the request in flight: at once, a few
+// fixed short durations, and fractions of the usable part of the shutdown timeout up to all of it
+// (usableMs), never less than atLeastMs.
+func drawRelease(rt *rapid.T, c l3Case, tag string, atLeastMs int) int {
+	u := usableMs(c.ShutdownS, c.ShutdownOmitted)
+	var cand []int
+	for _, v := range []int{0, 20, 200, 600, u / 4, u / 2, u * 6 / 10, u * 7 / 10, u * 8 / 10, u * 9 / 10, u, u} {
+		if v = min(v, u); v >= atLeastMs {
+			cand = append(cand, v)
+		}
+	}
+	if len(cand) == 0 {
+		cand = []int{u}
+	}
+	return rapid.SampledFrom(cand).Draw(rt, tag)
 }
 
 // duringDrain: a second signal arrives while the first one's drain is still waiting for the request.
@@ -246,14 +388,17 @@ func genL3SecondDuringDrain(rt *rapid.T) l3Case {
 		c.Second = rapid.SampledFrom([]string{"TERM", "INT"}).Draw(rt, "forced_second_signal")
 	}
 	c.SecondMs = rapid.SampledFrom([]int{0, 1, 10, 100}).Draw(rt, "forced_second_ms")
+	if !c.Over && c.ShutdownS < 2 {
+		c.ShutdownS = 2 // a request that is still being drained 200 ms later and the 1 s margin of usableMs
+	}
 	if !c.Over && c.ReleaseMs < 200 {
 		if c.Point == "half-sent-head" {
 			c.ReleaseMs = rapid.SampledFrom([]int{200, 500}).Draw(rt, "forced_rest_after_ms")
 		} else {
-			c.ReleaseMs = rapid.SampledFrom([]int{200, 600, (min(c.ShutdownS, 4) - 1) * 1000}).Draw(rt, "forced_release_ms")
+			c.ReleaseMs = drawRelease(rt, c, "forced_release_ms", 200)
 		}
 	}
-	return c
+	return c.normalize()
 }
 
 // genL3Aged draws a case in which the process is older than its whole shutdown timeout when the signal
@@ -276,21 +421,69 @@ func genL3Aged(rt *rapid.T) l3Case {
 	if c.Second != "" && c.SecondMs > c.ReleaseMs {
 		c.SecondMs = c.ReleaseMs / 2
 	}
-	return c
+	if c.Active && c.ProbeHangs {
+		drawActive(rt, &c, "aged_") // the backend must still be in rotation when the request is sent
+	}
+	return c.normalize()
+}
+
+// genL3LateFinisher draws a case in which, by construction, the request in flight needs the later part of
+// the shutdown timeout: timeouts.shutdown 3-6 s, the backend finishes the request after more than half of
+// it and at least 1 s before its end (in steps of 100 ms). What else is configured is drawn again relative
+// to that budget: active checks off (1 in 4) or on with probes answered or hanging and a probe timeout
+// below, at or above the shutdown timeout.
+func genL3LateFinisher(rt *rapid.T) l3Case {
+	c := genL3(rt)
+	for i := 0; i < 8 && (c.Point == "idle" || c.Point == "half-sent-head"); i++ {
+		c = genL3(rt)
+	}
+	if c.Point == "idle" || c.Point == "half-sent-head" {
+		return c
+	}
+	c.Late, c.ShutdownOmitted, c.Over, c.UptimeMs = true, false, false, 0
+	c.ShutdownS = rapid.IntRange(3, 6).Draw(rt, "late_shutdown")
+	lo, hi := c.ShutdownS*500+100, usableMs(c.ShutdownS, false)
+	c.ReleaseMs = lo + 100*rapid.IntRange(0, (hi-lo)/100).Draw(rt, "late_release_steps")
+	c.Active = rapid.IntRange(0, 3).Draw(rt, "late_active") != 0
+	c.ProbeHangs, c.IntervalS, c.TimeoutS = false, 0, 0
+	if c.Active {
+		drawActive(rt, &c, "late_")
+	}
+	return c.normalize()
 }
 
 func (c l3Case) yaml(port, metricsPort, adminPort int, backendURL string) string {
 	var b strings.Builder
-	if c.ShutdownOmitted {
-		// documented default: 30 s
-		fmt.Fprintf(&b, "server:\n  port: %d\n", port)
-	} else {
-		fmt.Fprintf(&b, "server:\n  port: %d\n  timeouts:\n    shutdown: %d\n", port, c.ShutdownS)
+	fmt.Fprintf(&b, "server:\n  port: %d\n", port)
+	if !c.ShutdownOmitted || c.Times.any() {
+		b.WriteString("  timeouts:\n")
+	}
+	if !c.ShutdownOmitted { // left out: documented default 30 s
+		fmt.Fprintf(&b, "    shutdown: %d\n", c.ShutdownS)
+	}
+	for _, kv := range []struct {
+		k string
+		v int
+	}{{"read", c.Times.Read}, {"write", c.Times.Write}, {"idle", c.Times.Idle}, {"handler", c.Times.Handler},
+		{"backend_dial", c.Times.BackendDial}, {"backend_read", c.Times.BackendRead}, {"backend_idle", c.Times.BackendIdle}} {
+		if kv.v != 0 {
+			fmt.Fprintf(&b, "    %s: %d\n", kv.k, kv.v)
+		}
+	}
+	// time values of the optional features: the sample file's unless drawn otherwise
+	passiveTO, breakerIv, breakerTO, poolIdle := 30, 60, 60, 300
+	switch c.FeatureTimes {
+	case "short":
+		passiveTO, breakerIv, breakerTO, poolIdle = 1, 1, 1, 1
+	case "budget":
+		passiveTO, breakerIv, breakerTO, poolIdle = c.ShutdownS, c.ShutdownS, c.ShutdownS, c.ShutdownS
+	case "long":
+		passiveTO, breakerIv, breakerTO, poolIdle = 600, 600, 600, 600
 	}
 	fmt.Fprintf(&b, "backends:\n  - name: \"b0\"\n    address: \"%s\"\n    weight: 1\n", backendURL)
 	b.WriteString("load_balancer:\n  strategy: \"round_robin\"\n")
 	if c.Pool {
-		b.WriteString("  websocket_pool:\n    enabled: true\n    max_idle: 10\n    max_active: 100\n    idle_timeout_seconds: 300\n")
+		fmt.Fprintf(&b, "  websocket_pool:\n    enabled: true\n    max_idle: 10\n    max_active: 100\n    idle_timeout_seconds: %d\n", poolIdle)
 	}
 	if c.Active || c.Passive {
 		b.WriteString("health_checks:\n")
@@ -299,13 +492,13 @@ func (c l3Case) yaml(port, metricsPort, adminPort int, backendURL string) string
 		fmt.Fprintf(&b, "  active:\n    enabled: true\n    interval: %d\n    timeout: %d\n    path: \"/healthz\"\n", c.IntervalS, c.TimeoutS)
 	}
 	if c.Passive {
-		b.WriteString("  passive:\n    enabled: true\n    unhealthy_threshold: 3\n    unhealthy_timeout: 30\n")
+		fmt.Fprintf(&b, "  passive:\n    enabled: true\n    unhealthy_threshold: 3\n    unhealthy_timeout: %d\n", passiveTO)
 	}
 	if c.Rate {
 		b.WriteString("rate_limit:\n  enabled: true\n  max_tokens: 100\n  refill_rate_seconds: 1\n")
 	}
 	if c.Breaker {
-		b.WriteString("circuit_breaker:\n  enabled: true\n  max_requests: 5\n  interval_seconds: 60\n  timeout_seconds: 60\n  failure_threshold: 5\n  success_threshold: 2\n")
+		fmt.Fprintf(&b, "circuit_breaker:\n  enabled: true\n  max_requests: 5\n  interval_seconds: %d\n  timeout_seconds: %d\n  failure_threshold: 5\n  success_threshold: 2\n", breakerIv, breakerTO)
 	}
 	if c.Admin {
 		fmt.Fprintf(&b, "admin_api:\n  enabled: true\n  port: %d\n  auth_token: \"change-me\"\n", adminPort)
@@ -356,6 +549,24 @@ func (c l3Case) responseText() string {
 	return fmt.Sprintf("%d, %s, %s framing, body %d B + %d B in %d write(s)", c.Status, ct, c.Framing, c.Part1, c.Part2, len(c.parts())-1)
 }
 
+// configText: what else is configured that has a time value, for a violation message.
+func (c l3Case) configText() string {
+	s := "active checks off"
+	if c.Active {
+		s = fmt.Sprintf("active checks every %d s with timeout %d s, probes answered", c.IntervalS, c.TimeoutS)
+		if c.ProbeHangs {
+			s = fmt.Sprintf("active checks every %d s with timeout %d s, probes hang in the backend", c.IntervalS, c.TimeoutS)
+		}
+	}
+	if c.Times.any() {
+		s += fmt.Sprintf("; other server.timeouts %+v", c.Times)
+	}
+	if c.FeatureTimes != "" {
+		s += "; feature time values: " + c.FeatureTimes
+	}
+	return s
+}
+
 func (c l3Case) requestKind() string {
 	if c.Request == "" {
 		return "bare-get"
@@ -395,13 +606,29 @@ type l3Result struct {
 	Harness   string
 	Retry     bool
 	NotJudged bool // half-sent-head: the connection ended without a response (not necessarily accepted before the signal)
-	ExitCode  int
-	ExitAfter time.Duration
-	Probes    int
-	Log       string
+	// LateBackend: the scripted backend finished the request later than planned, less than judgeSlack before
+	// the end of the shutdown timeout (a stalled harness): the client's verdict on it is not used.
+	LateBackend bool
+	PlayedAfter time.Duration // signal -> backend had played the whole response (0 = not observed)
+	ExitCode    int
+	ExitAfter   time.Duration
+	Probes      int
+	Log         string
 }
 
 var l3Seq atomic.Int64
+
+// probeTimedOut: helios logged a health probe that ran into health_checks.active.timeout. The scripted
+// backend answers every probe at once or - by script - never; a probe of the first kind that times out
+// means that the machine stalled for longer than the probe timeout.
+func probeTimedOut(log string) bool {
+	for _, line := range strings.Split(log, "\n") {
+		if strings.Contains(line, `"message":"health check failed"`) && (strings.Contains(line, "deadline exceeded") || strings.Contains(line, "Client.Timeout")) {
+			return true
+		}
+	}
+	return false
+}
 
 func probeCount(be *lab.RawBackend) int {
 	n := 0
@@ -535,6 +762,13 @@ func runL3(t testing.TB, c l3Case) (r l3Result) {
 		case <-halfSent(c):
 		case <-lab.Arrived(ex):
 		case <-time.After(stepBudget):
+			if c.Active && probeTimedOut(h.Log()) {
+				// the machine was so slow that a probe ran into its timeout before the request could be sent
+				// (an answered one that took longer than health_checks.active.timeout, or the scripted
+				// hanging one): the backend was out of rotation, which is not what the case is about
+				r.Retry = true
+				return
+			}
 			r.Harness = "the request did not reach the backend within " + stepBudget.String() + " (before any signal)"
 			return
 		}
@@ -590,10 +824,27 @@ func runL3(t testing.TB, c l3Case) (r l3Result) {
 		lab.CloseBarrier(ex)
 		select {
 		case v := <-readDone:
+			played, ok := lab.PlayedAt(ex)
+			for i := 0; i < 200 && !ok && v != "" && v != notJudged; i++ {
+				// the client saw a failure: a backend whose connection was cut notices at its next write
+				time.Sleep(5 * time.Millisecond)
+				played, ok = lab.PlayedAt(ex)
+			}
+			if ok {
+				r.PlayedAfter = played.Sub(sigAt)
+			}
+			if v != "" && v != notJudged && c.Point == "half-sent-head" && !ok && c.Active && probeTimedOut(h.Log()) {
+				// as above: the request - completed after the signal - found its backend out of rotation
+				// because a probe had timed out on a stalled machine; the case is started over
+				r.Retry = true
+				return
+			}
 			if v == notJudged {
 				r.NotJudged = true
+			} else if v != "" && ok && r.PlayedAfter > time.Duration(c.ShutdownS)*time.Second-judgeSlack {
+				r.LateBackend = true
 			} else if v != "" {
-				r.Viol = fmt.Sprintf("request in flight (%s; %s; response: %s) when SIG%s arrived, backend finished it %d ms later (shutdown timeout %d s): %s", c.Point, c.requestText(), c.responseText(), c.Signal, c.ReleaseMs, c.ShutdownS, v)
+				r.Viol = fmt.Sprintf("request in flight (%s; %s; response: %s) when SIG%s arrived, backend finished it %d ms later (measured: %d ms) = after %d %% of the shutdown timeout of %d s (%s): %s", c.Point, c.requestText(), c.responseText(), c.Signal, c.ReleaseMs, r.PlayedAfter.Milliseconds(), c.remainingPct(), c.ShutdownS, c.configText(), v)
 			}
 		case <-time.After(time.Duration(c.ShutdownS+4) * time.Second):
 			r.Viol = "the client of the in-flight request neither received the response nor an error"
@@ -644,17 +895,20 @@ func judgeResponse(c l3Case, out *lab.RawResponse, body []byte) string {
 }
 
 func TestC19Signals(t *testing.T) {
-	sub := lab.Sub(l3Name, "rapid: the real helios binary (timeouts.shutdown 2-4 s, one scripted raw TCP backend, optional metrics listener, every further optional feature on or off by draw with the values of the shipped sample file - rate_limit, circuit_breaker, passive checks, websocket_pool, admin_api (1 in 4), a plugin chain [logging, request-id, headers] -, active checks off / interval 2-3 s answered / interval 10 s timeout 9 s with probes that hang in the backend) receives SIGTERM or SIGINT "+
-		"at a drawn point: no request in flight; a request of which only the request line and one header field have been sent (the rest of the head follows 0-500 ms after the signal, the backend answers at once); a request that reached the backend which has not answered (released 0-(timeout-1) s after the signal); a response of whose first body part (1 B-64 KiB) the client has read everything the proxy must have passed on (all of it when chunked or close-delimited, all but 8 KiB when CL-framed) while the backend waits on a barrier before part 2 (1 B-200 kB, sent in 1-5 writes; CL, chunked or close-delimited; status 200/201/404); a chunked / close-delimited response of which the client has read the head while the backend has not produced a body byte yet; "+
+	sub := lab.Sub(l3Name, "rapid: the real helios binary (timeouts.shutdown 1-5 s or left out = 30 s, one scripted raw TCP backend, optional metrics listener, every further optional feature on or off by draw - rate_limit, circuit_breaker, passive checks, websocket_pool, admin_api (1 in 4), a plugin chain [logging, request-id, headers]; their time values (unhealthy_timeout, breaker interval / timeout, pool idle timeout) are the sample file's, 1 s, the shutdown timeout or 600 s -, "+
+		"active checks off / answered with interval 2-30 s and a probe timeout of 1 s ... interval-1 s (below, at and above the shutdown timeout) / probes that hang in the backend with interval,timeout 5,4 10,7 10,9 30,7 30,29 s; in half of the cases the other server.timeouts keys are set too: read 5-60, idle 1-120, backend_dial 2-10, backend_idle 1-90 s, and write / handler / backend_read from 1 s up, raised to the remaining duration of the request in flight + 3 s where they would end it themselves) receives SIGTERM or SIGINT "+
+		"at a drawn point: no request in flight; a request of which only the request line and one header field have been sent (the rest of the head follows 0-500 ms after the signal, the backend answers at once); a request that reached the backend which has not answered (released after the signal at once, 20-600 ms later or after 25-100 % of [timeout - 1 s]); a response of whose first body part (1 B-64 KiB) the client has read everything the proxy must have passed on (all of it when chunked or close-delimited, all but 8 KiB when CL-framed) while the backend waits on a barrier before part 2 (1 B-200 kB, sent in 1-5 writes; CL, chunked or close-delimited; status 200/201/404); a chunked / close-delimited response of which the client has read the head while the backend has not produced a body byte yet; "+
 		"the exchange in flight looks like what real services send, by draw: response media type (half of the cases one that announces a piece-by-piece response - text/event-stream with and without parameters, ndjson, stream+json, grpc-web, multipart/x-mixed-replace, MPEG-TS -, otherwise octet-stream / none / text / JSON / HTML / JPEG / PDF), further response fields (no-cache, SSE proxy hints, download, cookie, long-lived cache), the request (bare GET, a browser EventSource's GET, an API GET, POST with Content-Length 0); every scripted response is finite; "+
-		"1 in 7 requests is never finished by the backend (outlasts the shutdown timeout); 1 in 3 cases sends a second SIGTERM/SIGINT 0-100 ms later, during the shutdown, and in two of every six cases a second signal arrives by construction while the request is still being drained (backend finishes >= 200 ms after the first signal or never), and in one of every six the process has been up for longer than its whole shutdown timeout (2 s + 0.1-1 s) when the signal arrives, the request being finished 20-1000 ms later; "+
+		"1 in 7 requests is never finished by the backend (outlasts the shutdown timeout); 1 in 3 cases sends a second SIGTERM/SIGINT 0-100 ms later, during the shutdown, and in two of every six cases a second signal arrives by construction while the request is still being drained (backend finishes >= 200 ms after the first signal or never), and in one of every six the process has been up for longer than its whole shutdown timeout (2 s + 0.1-1 s) when the signal arrives, the request being finished 20-1000 ms later; in one of every six the request in flight needs the later part of the budget by construction: timeouts.shutdown 3-6 s, the backend finishes it after more than half of the timeout and at least 1 s before its end (100 ms steps), active checks off (1 in 4) or on with the probe timeouts above; "+
 		"oracle: the in-flight request is received complete and exact, the process exits within shutdown timeout + 2 s with status 0 (status not asserted for the outlasting request) and no panic trace, the backend sees nothing after the exit; non-trivial = a request is in flight when the signal arrives")
 	sub.NontrivialFloor(0.60)
 	sub.Floor("second-signal-during-drain", 0.25)
 	sub.Floor("uptime-beyond-shutdown-timeout", 0.10)
 	sub.Floor("stream-typed-response,finishes-inside-timeout", 0.25)
+	sub.Floor("finishes-in-second-half-of-timeout", 0.10)
 	lab.Assume("L3: requests with a body are not drawn (open finding C01/request-body-close-race of net/http truncates such exchanges now and then, shutdown or not)")
-	lab.Assume("L3: loopback only; a request counts as in flight once the scripted backend has parsed it; 'remaining duration below the shutdown timeout' is generated with a 1 s margin; the exit bound is shutdown timeout + 2 s of real time (normal: milliseconds)")
+	lab.Assume("L3: loopback only; a request counts as in flight once the scripted backend has parsed it; 'remaining duration below the shutdown timeout' is generated with a 1 s margin and measured: a failed exchange whose response the backend finished playing less than 0.8 s before the end of the timeout (stalled harness) is labelled not-judged; the exit bound is shutdown timeout + 2 s of real time (normal: milliseconds)")
+	lab.Assume("L3: the other documented timeouts that bound a whole exchange (server.timeouts.write, handler, backend_read; defaults 15 / 30 / 30 s) are never configured below the remaining duration of the request in flight + 3 s; with the shutdown key left out (30 s) the quick tier uses at most 3 s of the budget, the thorough tier up to 24 s")
 	const par = 6
 	// 4 / 50 batches x par binaries: 24 quick, 300 thorough (before sharding)
 	lab.Check(t, sub, 4, 50, func(rt *rapid.T) {
@@ -665,6 +919,8 @@ func TestC19Signals(t *testing.T) {
 				cases[i] = genL3SecondDuringDrain(rt)
 			case i == 1: // one of the six: a process older than its shutdown timeout
 				cases[i] = genL3Aged(rt)
+			case i == 4: // one of the six: the request in flight needs the later part of the shutdown timeout
+				cases[i] = genL3LateFinisher(rt)
 			default:
 				cases[i] = genL3(rt)
 			}
@@ -689,6 +945,39 @@ func TestC19Signals(t *testing.T) {
 			labels := []string{"signal=" + c.Signal, "point=" + c.Point, fmt.Sprintf("shutdown=%ds", c.ShutdownS)}
 			if c.Over {
 				labels = append(labels, "request-outlasts-timeout")
+			} else if c.Point != "idle" && c.Point != "half-sent-head" {
+				// how much of the shutdown timeout the request in flight still needs at the signal
+				pct := c.remainingPct()
+				switch {
+				case pct < 10:
+					labels = append(labels, "remaining<10%-of-timeout")
+				case pct <= 50:
+					labels = append(labels, "remaining=10-50%-of-timeout")
+				case pct <= 70:
+					labels = append(labels, "remaining=50-70%-of-timeout")
+				default:
+					labels = append(labels, "remaining>70%-of-timeout")
+				}
+			}
+			if c.needsSecondHalf() {
+				labels = append(labels, "finishes-in-second-half-of-timeout")
+				switch {
+				case !c.Active:
+					labels = append(labels, "finishes-in-second-half-of-timeout,no-active-checks")
+				case c.TimeoutS*2 >= c.ShutdownS:
+					labels = append(labels, "finishes-in-second-half-of-timeout,probe-timeout>=half-of-timeout")
+				default:
+					labels = append(labels, "finishes-in-second-half-of-timeout,probe-timeout<half-of-timeout")
+				}
+				if c.Active && c.ProbeHangs && c.TimeoutS*1000 < c.ReleaseMs {
+					labels = append(labels, "hanging-probe-times-out-during-drain")
+				}
+			}
+			if c.Times.any() {
+				labels = append(labels, "server-timeouts-set")
+			}
+			if c.FeatureTimes != "" && (c.Passive || c.Breaker || c.Pool) {
+				labels = append(labels, "feature-timeouts="+c.FeatureTimes)
 			}
 			if c.Point != "idle" {
 				mt := c.CType
@@ -709,6 +998,9 @@ func TestC19Signals(t *testing.T) {
 					}
 				}
 			}
+			if r.LateBackend {
+				labels = append(labels, "not-judged:backend-finished-later-than-planned")
+			}
 			if c.Point == "half-sent-head" {
 				if res[i].NotJudged {
 					labels = append(labels, "half-sent-head-not-judged")
@@ -726,7 +1018,15 @@ func TestC19Signals(t *testing.T) {
 				labels = append(labels, "uptime-beyond-shutdown-timeout")
 			}
 			if c.Active {
-				labels = append(labels, "active-checks")
+				labels = append(labels, "active-checks", fmt.Sprintf("probe-interval=%ds", c.IntervalS))
+				switch {
+				case c.TimeoutS < c.ShutdownS:
+					labels = append(labels, "probe-timeout<shutdown-timeout")
+				case c.TimeoutS == c.ShutdownS:
+					labels = append(labels, "probe-timeout=shutdown-timeout")
+				default:
+					labels = append(labels, "probe-timeout>shutdown-timeout")
+				}
 				if c.ProbeHangs {
 					labels = append(labels, "probe-hangs-at-signal")
 				}
@@ -754,8 +1054,8 @@ func TestC19Signals(t *testing.T) {
 			r := res[i]
 			switch {
 			case r.Retry:
-				lab.Problem("%s: no usable free port three times in a row", l3Name)
-				rt.Fatalf("harness: ports")
+				lab.Problem("%s: no usable free port, or a machine too slow to send the request before a hanging probe timed out, three times in a row", l3Name)
+				rt.Fatalf("harness: ports / slow machine")
 			case r.Harness != "":
 				rt.Fatalf("harness: %s\ncase %+v\nlog:\n%s", r.Harness, c, r.Log)
 			case r.Viol != "":
